@@ -227,3 +227,16 @@ package object
 //@   assigns  nothing
 //@   loop 1 invariant obj == nil || isVal(obj)
 //@   loop 1 invariant exists k int :: k >= 0 && obj == anc(o, k) && noOwnerBelow(o, propHash, k)
+//
+// ---- C20: lock discipline of the interpreter-wide symbol tables ------------------------------
+//@ guarded_by object.lock: object.symHashTable, object.strTable
+//@ props C20
+//@ func object.readSymHash(str) res, ok
+//@   requires held == 0
+//@   ensures  held == old(held)
+//@ func object.writeSymHash(symHash, str)
+//@   requires held == 0
+//@   ensures  held == old(held)
+//@ func object.SymHash2Str(h) res, ok
+//@   requires held == 0
+//@   ensures  held == old(held)
